@@ -200,6 +200,21 @@ def corpus(v, level):
     add('Group', lambda: (lambda g: (g.add_segment('PID'), g.to_er7(ec))[-1])(
         core.Group('ADT_A01_INSURANCE' if 'ADT_A01_INSURANCE' in tables.lib(v).GROUPS else None, version=v,
                    validation_level=level)))
+    # the explicit characters spelled with the library's own objects (the constant of hl7apy.consts, which is also what
+    # get_default_encoding_chars() hands out before any change): explicit all the same
+    from hl7apy import consts
+    own = consts.DEFAULT_ENCODING_CHARS_27 if 'TRUNCATION' in ec else consts.DEFAULT_ENCODING_CHARS
+    add('parse_segment:library-constant-as-explicit-chars',
+        lambda: (lambda sg: (sg.to_er7(own), sg.to_er7(ec), report(sg)))(
+            parser.parse_segment('PID|1||1^^^A&B~2||D^J!K@L', version=v, validation_level=level, encoding_chars=own)))
+
+    def build_own():
+        m = core.Message('ADT_A01', version=v, validation_level=level, encoding_chars=own)
+        m.msh.msh_7 = '20200101'
+        m.msh.msh_10 = 'x'
+        m.add_segment('PID').pid_5 = 'A^B&C'
+        return m.to_er7(), m.to_er7(own), dict(m.encoding_chars)
+    add('Message:library-constant-as-explicit-chars', build_own)
     add('is_base_datatype', lambda: [core.is_base_datatype(d, v) for d in ('ST', 'TN', 'CM', 'DTM', 'GTS', 'SNM', 'TS')])
     return calls
 
@@ -225,7 +240,10 @@ def existing_elements():
 
 
 def observe(els):
-    obs = []
+    from hl7apy import consts
+    # the public constants are values callers hold and pass explicitly: a change of the defaults leaves them alone
+    obs = [('hl7apy.consts constants', dict(consts.DEFAULT_ENCODING_CHARS), dict(consts.DEFAULT_ENCODING_CHARS_27),
+            consts.DEFAULT_VERSION)]
     for label, e, ec in els:
         obs.append((label, e.to_er7(ec) if ec else e.to_er7(), e.version, e.validation_level,
                     [(c.version, c.validation_level) for c in treeinv.walk(e)], treeinv.shape(e),
@@ -270,7 +288,7 @@ def run_shard(spec, rec):
             differs = spec['dv'] != base_defaults[0] or spec['dl'] != base_defaults[1] or dec is not None
             hl7apy.set_default_version(spec['dv'])
             hl7apy.set_default_validation_level(spec['dl'])
-            hl7apy.set_default_encoding_chars(dict(dec) if dec else dict(DEFAULT_ENCODING_CHARS))
+            hl7apy.set_default_encoding_chars(dict(dec) if dec else dict(base_defaults[2]))
             try:
                 for (label, thunk), b in zip(calls, base):
                     rec.evaluation((label, spec['dv'], spec['dl'], bool(dec)), nontrivial=differs)
@@ -286,6 +304,7 @@ def run_shard(spec, rec):
                                                                         'defaults_changed': leak})
                 obs = observe(els)
                 rec.count('existing_elements_reobserved', len(els))
+                assert len(obs) == len(obs0)
                 for a, b2 in zip(obs0, obs):
                     if a != b2:
                         rec.violation('existing-element-altered-by-defaults', {'label': a[0], 'config': cfg},
@@ -293,7 +312,7 @@ def run_shard(spec, rec):
             finally:
                 hl7apy.set_default_version(base_defaults[0])
                 hl7apy.set_default_validation_level(base_defaults[1])
-                hl7apy.set_default_encoding_chars(dict(DEFAULT_ENCODING_CHARS))
+                hl7apy.set_default_encoding_chars(dict(base_defaults[2]))
         rec.count('default_consultations_total', consult['n'])
         rec.seen('default_versions', spec['dv'])
         rec.seen('default_levels', str(spec['dl']))
